@@ -90,11 +90,16 @@ def main(ctx):
         ctx.inconclusive_because("reference_unavailable: node missing (round-trip laws alone do not decide acceptance)")
         return
     texts = []
-    n = 2500 if ctx.quick else 60000
+    n = 6000 if ctx.quick else 60000
     for i in range(n):
         r = fixed if i % 2 == 0 else rng
         texts.append(gen_text(r, r.randint(0, 4)))
     texts += [t for t in NUMS + STRS] + ["[" * k + "]" * k for k in (1, 5, 30)] + ["{\"a\":" * 20 + "1" + "}" * 20]
+    # every control character, DEL, NBSP, LS/PS, BOM, surrogate edges - as a value and as a key, spelled as an escape
+    # (raw control characters are not valid JSON text; the near-miss family spells some of them raw)
+    for cp in list(range(0x20)) + [0x22, 0x2f, 0x5c, 0x7f, 0x80, 0x9f, 0xa0, 0xad, 0x2028, 0x2029, 0xfeff, 0xd7ff, 0xd800, 0xdbff, 0xdc00, 0xdfff, 0xe000, 0xfffe, 0xffff]:
+        texts.append('"\\u%04x"' % cp)
+        texts.append('{"k\\u%04x":["\\u%04xz"]}' % (cp, cp))
     near = []
     for i in range(n):
         r = fixed if i % 2 == 0 else rng
@@ -112,7 +117,7 @@ def main(ctx):
         body = src.rsplit(";", 1)
         progs.append(("cycle", SPROBE % (body[0] + "; return " + body[1] + ";")))
     # stringify of parsed random values (value-level), extra arguments ignored/unsupported are probed separately
-    for t in texts[: (600 if ctx.quick else 8000)]:
+    for t in texts[: (1500 if ctx.quick else 8000)]:
         progs.append(("stringify-value", "(function () { try { return JSON.stringify(JSON.parse(%s)); } catch (e) { return ['threw', e && e.name]; } })()" % json.dumps(t)))
     progs += [("args", "JSON.stringify({a: [1, {b: 2}]}, null, 2)"), ("args", "JSON.stringify({a: 1, b: 2}, ['a'])"), ("args", "JSON.stringify({a: 1}, function (k, v) { return typeof v === 'number' ? v + 1 : v; })"),
               ("args", "JSON.parse('{\"a\": 1}', function (k, v) { return typeof v === 'number' ? v * 2 : v; }).a"), ("args", "JSON.stringify('x', null, '--')"), ("args", "JSON.stringify([1], null, 20).length"),
